@@ -6,6 +6,12 @@ import re
 
 VERIF = os.path.dirname(os.path.dirname(os.path.abspath(__file__)))
 FIRST_MISSED = {
+    "C17h": "missed at first (the changed function is in C16's T1, not C17's); caught after the scale stream (one observable read by 257+ Computeds)",
+    "C01i": "missed at first; caught after the user-code stream ran seeded models under forced collector regimes (agents in reference cycles)",
+    "C08i": "missed at first; caught after agents whose pos is a notifying property with raising / re-entering listeners",
+    "C09i": "missed at first; caught after the driver used iterable and sequence-like agent subclasses",
+    "C11i": "missed at first; caught after every public entry point to a layer (grid.<name>, handle, registry, cell attribute) was used interchangeably across remove + re-add",
+    "C17i": "missed at first; caught after Computed subclasses with value-based __eq__/__hash__ (equal but distinct instances)",
     "C20g": "missed at first; caught after constant layers included +inf / -inf (degenerate scale with a NaN span)",
     "C13a": "missed at first; caught after the batch models learned to collect several times per step",
     "C17a": "missed at first; caught after Computed functions could return None",
